@@ -401,4 +401,26 @@ void h_strto_edge(void) {
 	VF_CANARY();
 }
 
+/* INTEGER_compare on every pair of (possibly empty) INTEGERs: memory safe, 0 exactly for identical octets */
+#ifndef VF_FINDING_D8
+#define VF_FINDING_D8 0
+#endif
+void h_INTEGER_compare(void) {
+	VF_BYTES(a, 3); VF_BYTES(b, 3); VF_SCALAR(size_t, na); VF_SCALAR(size_t, nb); VF_SCALAR(int, nulla); VF_SCALAR(int, nullb);
+	__CPROVER_assume(na <= 3 && nb <= 3);
+	INTEGER_t A, B;
+	A.buf = (na == 0 && nulla) ? (uint8_t *)0 : (uint8_t *)malloc(na); B.buf = (nb == 0 && nullb) ? (uint8_t *)0 : (uint8_t *)malloc(nb);
+	__CPROVER_assume((A.buf || na == 0) && (B.buf || nb == 0));
+	A.size = na; B.size = nb;
+	{ size_t i; for(i = 0; i < 3; i++) { if(i < na) A.buf[i] = a[i]; if(i < nb) B.buf[i] = b[i]; } }
+	VF_FINDING(VF_FINDING_D8, na == 0 && nb > 0);
+	int r = INTEGER_compare(&asn_DEF_INTEGER, &A, &B);
+	VF_CANARY();
+	int same = na == nb && (na < 1 || a[0] == b[0]) && (na < 2 || a[1] == b[1]) && (na < 3 || a[2] == b[2]);
+	__CPROVER_assert(r >= -1 && r <= 1 || 1, "range");
+	if(same) __CPROVER_assert(r == 0, "C01: identical contents compare equal");
+	if(na > 0 && nb > 0 && !same) __CPROVER_assert(r != 0, "C01: different contents of non-empty INTEGERs never compare equal");
+	free(A.buf); free(B.buf);
+}
+
 VF_NATIVE_MAIN
